@@ -101,6 +101,23 @@ def other_case(draw):
     return {"mode": "other", "a": a, "op": op, "kind": kind, "s": draw(st.sampled_from([2, 3, 5])), "reverse": draw(st.booleans())}
 
 
+def enumerate_cases(tier):
+    """the same label set in both operands, the second one stored in EVERY order (24 permutations of 4 labels): alignment is by label,
+    whatever the stored order - also when only the interior labels differ from the first operand's order"""
+    for kind, base in (("i", [10, 20, 30, 40]), ("s", ["a", "b", "c", "d"]), ("f", [0.5, 1.5, 2.5, 3.5])):
+        for k, perm in enumerate(itertools.permutations(base)):
+            for op in ("+", "-") if kind == "i" else ("*",):
+                for shape2 in (False, True):
+                    a = {"dims": ["x"], "labels": [list(base) if not shape2 else list(base[::-1])], "vk": "f", "base": 2}
+                    b = {"dims": ["x", "y"] if shape2 else ["x"], "labels": [list(perm), [1, 2]] if shape2 else [list(perm)], "vk": "f" if k % 2 else "i", "base": 3}
+                    yield "same-label-set-every-order", {"mode": "pair", "a": a, "b": b, "op": op}
+    # ... and the first operand's labels nested in the second one's (every order of the 4 inner labels between two outer ones)
+    for perm in itertools.permutations([10, 20, 30, 40]):
+        a = {"dims": ["x"], "labels": [[10, 20, 30, 40]], "vk": "i", "base": 2}
+        b = {"dims": ["x"], "labels": [[5] + list(perm) + [45]], "vk": "i", "base": 3}
+        yield "same-label-set-every-order", {"mode": "pair", "a": a, "b": b, "op": "+"}
+
+
 def strategy(tier):
     md = 4 if tier == "thorough" else 3
     return st.one_of(pair_case(md), pair_case(md), pair_case(md), other_case())
